@@ -1225,19 +1225,18 @@ PROVED (this section):
 * `fit_around_shape`, `fit_around_gap_valid` — every replace-around answer: gap `[to, to.end())`, a closed slice of valid
   nodes of the document, structure flag not set.
 
-FULL STATEMENTS AIMED AT (not proved):
-`fit_emits_valid_payload` : hypotheses of `fit_emits_wf` → `closableB` → the request slice cut from a valid document (closed
-  nodes valid, the children of its spine nodes carrying marks their parent allows) →
-  `openValid S sl'.openStart sl'.openEnd sl'.content` for the emitted slice `sl'`;
+* `fit_emits_valid_payload` — **every** request with a loosely valid slice (`Slice.looseValid`), under the hypotheses of
+  `fit_emits_wf` and `leafOkB`, `textStableC`, `closableB`: no hypothesis on the Fitter's state (Proofs/FitOpen.lean:
+  `VInv` is invariant under `place_nodes` for open slices as well, and the unplaced slice stays loosely valid, `UInv`).
+
+FULL STATEMENT STILL AIMED AT (not proved):
 `fit_no_raise` : … `→ sl.noPartialNode S → replaceStep S doc f t sl ≠ .error .raises`, and with
-  `fitLoop_terminates` the total `replaceStep_total`.
-What is missing for the first is the invariance of `VInv` / `validB` under `place_nodes` when the unplaced slice is open:
-the validity of `close_node_start`'s results (fill prefix + children accepted; needs the request slice's validity carried
-along the unplaced slice through `drop_from_fragment` / `open_more`) and `LevelR` for the levels `place_nodes` pushes for
-the open end (`pushOpenEnd`; their coherence is `pushOpenEnd_coh`).  The driver evaluates `validB` after **every** iteration of
-every generated request (op `fitEmit`, counter "validity invariant after every iteration"): true on all runs (about 4 900
-runs of the loop per seed, closed and open slices, bundled-family and random schemas), and the tie checks the real step's
-payload with the independent validator whenever the hypotheses of `fit_emits_valid_payload_of_inv` hold.
+  `fitLoop_terminates` the total `replaceStep_total`.  The raise sites of the loop: `content_match_at(child_count)` on the
+  node `place_nodes` re-opens (the partial-node finding), `fill_before` answering `None` inside `close_node_start`, and
+  `add_to_fragment` / frontier indexing, which `InStep` excludes.
+The driver evaluates `validB` after **every** iteration of every generated request (op `fitEmit`, counter "validity
+invariant after every iteration"): true on all runs, and the tie checks the real step's payload with the independent
+validator whenever the hypotheses of `fit_emits_valid_payload_of_inv` hold.
 
 The two invariants: `FitState.coherentB` (PM/Fitter.lean; `coherent_invariant` below, Proofs/FitCoherent.lean) — walking the
 last-child chain of `placed`, `frontier[i].ty` is the type of the node open at level `i` and `frontier[i].match` is the state of
